@@ -56,7 +56,9 @@ def obj_strategy():
         "where": st.sampled_from(["obj", "obj", "ar"]),
         "ref": st.sampled_from([True, True, False]),
         "props": props_strategy(),
-        "note": st.sampled_from(["one", "one", "one", "two", "none"]),
+        # "dup": the same properties are carried by two notes of the object (e.g. a compiler-emitted note plus a
+        # hand-written one): repeated entries of one type must count once per input.
+        "note": st.sampled_from(["one", "one", "one", "two", "dup", "none"]),
     })
 
 
@@ -88,7 +90,8 @@ def normalise(case):
         if stack == "-" and not case["raw"]:
             stack = "n"
         objs.append({"i": i, "where": where, "loaded": where == "obj" or o["ref"], "ref": o["ref"], "stack": stack,
-                     "props": props, "two": o["note"] == "two", "has_note": o["note"] != "none" and bool(props)})
+                     "props": props, "two": o["note"] == "two", "dup": o["note"] == "dup",
+                     "has_note": o["note"] != "none" and bool(props)})
     z = case["z"]
     if z != "execstack" and any(o["stack"] == "x" and o["loaded"] for o in objs) and case["zfix"]:
         # wild refuses an exec-stack request without -z execstack (discarded): mostly avoided
@@ -124,6 +127,8 @@ def asm_of(o, nobjs, refs):
         groups = [items]
         if o["two"] and len(items) >= 2:
             groups = [items[:1], items[1:]]
+        elif o.get("dup"):
+            groups = [items, items]
         out += [".section .note.gnu.property,\"a\",@note", ".p2align 3"]
         for g in groups:
             out.append("  .byte " + ",".join(str(b) for b in note_bytes(g)))
@@ -319,6 +324,8 @@ class C36(Check):
             classes.append("unloaded-member")
         if case["isa"]:
             classes.append("isa-flag")
+        if any(o.get("dup") for o in loaded):
+            classes.append("dup-notes")
         if any(o["two"] and len(o["props"]) >= 2 for o in loaded):
             classes.append("two-notes")
         if not mp:
